@@ -13,7 +13,10 @@
 (*              identifiers from position+IdOffs (shifted / swapped / duplicated arise),   *)
 (*              citations existing / dangling / forward / self / negative / into a closed  *)
 (*              block, stated sequent absent / exact / weaker / stronger / other,          *)
-(*              placeholders (sorry, gap macro) and empty lines anywhere                   *)
+(*              placeholders (sorry, gap macro) and empty lines anywhere; argument objects  *)
+(*              of every kind on every primitive rule, with numbers of citations that do    *)
+(*              and do not fit the rule; the same item OBJECT placed at a second position   *)
+(*              (AddAlias) and equal twin items                                            *)
 (*   property : the reference checker RefCheck (C02_Ref) is sound and counts gaps exactly  *)
 (*              (invariants below).  Every complete object is emitted as a vector that is  *)
 (*              replayed into theory.check_proof / Theory.checked_extend.                  *)
@@ -28,12 +31,18 @@ CONSTANTS MaxItems,    \* top-level items
           Budget,      \* anomalies per object
           IdOffs,      \* identifier = position + offset
           Rules,       \* rule names used by the generator
+          ArgKinds,    \* kinds of argument objects tried where the rule's signature asks for another kind ({} = none)
+          ArityOffs,   \* number of citations = the rule's number of premises + offset
+          MaxAlias,    \* how many times an item object may be placed at a further position
           Emit         \* write vectors to IOEnv.VECTOR_FILE
 
 \* cfg files cannot contain negative literals: IdOffs <- IdOffs3 etc.
 IdOffs1 == {0}
+IdOffs2 == {0, 1}
 IdOffs3 == {-1, 0, 1}
 IdOffs4 == {-1, 0, 1, 2}
+ArityOffs1 == {0}
+ArityOffs3 == {-1, 0, 1}
 
 \* rn, rg: ghost variables = RefCheck of the current object without / with gaps allowed (functions of prf,
 \* kept in the state so that each is evaluated once per object)
@@ -45,15 +54,20 @@ vars == <<prf, openp, w, rn, rg>>
 \* in the object built so far (NoneS when unknown); stated sequents are chosen relative to it
 Eff(it) == IF IsNone(it.th) THEN it.nat ELSE it.th
 Fallback == Sq({}, atB)
-Arity(rl) == CASE rl \in {"implies_intr", "substitution", "verif_id0"} -> 1 [] rl = "implies_elim" -> 2 [] OTHER -> 0
+Arity(rl) == CASE rl \in {"implies_intr", "substitution", "subst_type", "symmetric", "verif_id0", "abstraction", "forall_intr", "forall_elim"} -> 1
+               [] rl \in {"implies_elim", "transitive", "equal_intr", "equal_elim", "combination"} -> 2
+               [] OTHER -> 0
+\* a: argument record [ak, a, at, w]
 NatOf(rl, a, cs, cur) ==
   IF rl \in {"", "sorry", "subproof"} THEN NoneS
-  ELSE IF rl = "verif_gap1" THEN Sq({}, a)
+  ELSE IF rl = "verif_gap1" THEN (IF a.ak = "term" THEN Sq({}, a.a) ELSE Fallback)
+  ELSE IF rl \in Unmodelled \/ (a.ak # Sig(rl) /\ rl # "verif_id0" /\ ~(Sig(rl) = "none" /\ a.ak = "thm")) THEN Fallback
   ELSE LET ps == [k \in 1..Len(cs) |-> FindPos(cur, cs[k], TRUE)] IN
        IF \E k \in 1..Len(cs) : ps[k] = ErrPos THEN Fallback
        ELSE LET es == [k \in 1..Len(cs) |-> Eff(ItemAt(cur, ps[k]))] IN
             IF \E k \in 1..Len(cs) : IsNone(es[k]) THEN Fallback
-            ELSE LET outs == Apply(rl, a, es) IN IF outs = {} THEN Fallback ELSE CHOOSE o \in outs : TRUE
+            ELSE LET outs == Apply(rl, a.a, IF a.ak = "thm" THEN <<a.at>> \o es ELSE es) IN   \* a Thm argument lands in front of the premises
+                 IF outs = {} THEN Fallback ELSE CHOOSE o \in outs : TRUE
 OtherC(c) == IF c = atA THEN atB ELSE atA
 Variants(s) == (IF atB \notin s.h THEN {Sq(s.h \cup {atB}, s.c)} ELSE IF atA \notin s.h THEN {Sq(s.h \cup {atA}, s.c)} ELSE {})
                \cup (IF s.h = {} THEN {} ELSE {Sq(s.h \ {CHOOSE y \in s.h : TRUE}, s.c)})
@@ -65,12 +79,24 @@ ThOpts(rl, nat) ==
     [] Lean -> {TW(NoneS, 0)}
     [] OTHER -> IF IsNone(nat) THEN {TW(NoneS, 0), TW(Sq({}, atB), 1)}
                 ELSE {TW(NoneS, 0), TW(nat, 0)} \cup { TW(v, 1) : v \in Variants(nat) \ {nat} }
-AW(a, x) == [a |-> a, w |-> x]
-Args(rl) == CASE rl = "assume" -> {AW(atA, 0), AW(atB, 0)}
-              [] rl = "implies_intr" -> {AW(atA, 0)}
-              [] rl = "theorem" -> {AW(<<"at", "T1">>, 0), AW(<<"at", "TX">>, 1)}
-              [] rl = "verif_gap1" -> {AW(atB, 0)}
-              [] OTHER -> {AW(NoneP, 0)}
+AR(ak, a, at, x) == [ak |-> ak, a |-> a, at |-> at, w |-> x]
+FitArgs(rl) == CASE rl \in {"assume", "reflexive"} -> {AR("term", atA, NoneS, 0), AR("term", atB, NoneS, 0)}
+                 [] rl \in {"implies_intr", "beta_conv", "abstraction", "forall_intr", "forall_elim"} -> {AR("term", atA, NoneS, 0)}
+                 [] rl = "theorem" -> {AR("name", <<"at", "T1">>, NoneS, 0), AR("name", <<"at", "TX">>, NoneS, 1)}
+                 [] rl = "verif_gap1" -> {AR("term", atB, NoneS, 0)}
+                 [] rl = "substitution" -> {AR("inst", NoneP, NoneS, 0)}
+                 [] rl = "subst_type" -> {AR("tyinst", NoneP, NoneS, 0)}
+                 [] OTHER -> {AR("none", NoneP, NoneS, 0)}
+\* made-up theorem objects that would be useful premises: relative to the conclusion of the preceding item
+ThmPool(lastc) == {Sq({}, atB), Sq({}, Imp(lastc, atB)), Sq({}, Eq(lastc, atB))}
+KindArgs(k, lastc) == CASE k = "none" -> {AR("none", NoneP, NoneS, 1)}
+                        [] k = "term" -> {AR("term", atA, NoneS, 1)}
+                        [] k = "thm" -> { AR("thm", NoneP, t, 1) : t \in ThmPool(lastc) }
+                        [] k = "tuple" -> {AR("tuple", atA, NoneS, 1)}
+                        [] k = "name" -> {AR("name", <<"at", "T1">>, NoneS, 1)}
+                        [] OTHER -> {AR(k, NoneP, NoneS, 1)}                       \* "type", "inst", "tyinst"
+Args(rl, lastc) == FitArgs(rl) \cup (IF rl \in ArgIgnored THEN {} ELSE UNION { KindArgs(k, lastc) : k \in ArgKinds \ {Sig(rl)} })
+NCites(rl) == { n \in 0..2 : n - Arity(rl) \in ArityOffs }
 \* a citation costs nothing iff it names an existing position visible from p
 CW(p, c) == IF Visible(p, c) /\ \A k \in 1..Len(c) : c[k] >= 0 THEN 0 ELSE 1
 RECURSIVE SumW(_, _)
@@ -99,6 +125,9 @@ CloseAt(items, path, k, th, nat) == IF k = Len(path) THEN [items EXCEPT ![path[k
 RECURSIVE CountLeaves(_)
 CountLeaves(items) == IF Len(items) = 0 THEN 0
                       ELSE (IF items[1].rule = "subproof" THEN CountLeaves(items[1].sub) ELSE 1) + CountLeaves(Tail(items))
+RECURSIVE CountAlias(_)
+CountAlias(items) == IF Len(items) = 0 THEN 0
+                     ELSE (IF items[1].alias # <<>> THEN 1 ELSE 0) + CountAlias(items[1].sub) + CountAlias(Tail(items))
 RECURSIVE CountBlocks(_)
 CountBlocks(items) == IF Len(items) = 0 THEN 0
                       ELSE (IF items[1].rule = "subproof" THEN 1 + CountBlocks(items[1].sub) ELSE 0) + CountBlocks(Tail(items))
@@ -111,8 +140,8 @@ CitesFor(pool, p, rem) == IF rem <= 0 THEN { c \in pool : CW(p, c) = 0 } ELSE po
 RECURSIVE ToJ(_)
 SeqJ(s) == [h |-> SetToSeq(s.h), c |-> s.c]
 ToJ(items) == [i \in 1..Len(items) |->
-                 [id |-> items[i].id, rule |-> items[i].rule, arg |-> items[i].arg, prevs |-> items[i].prevs,
-                  th |-> SeqJ(items[i].th), sub |-> ToJ(items[i].sub)]]
+                 [id |-> items[i].id, rule |-> items[i].rule, ak |-> items[i].ak, arg |-> items[i].arg, at |-> SeqJ(items[i].at),
+                  prevs |-> items[i].prevs, th |-> SeqJ(items[i].th), sub |-> ToJ(items[i].sub), alias |-> items[i].alias]]
 \* stated theorems offered to checked_extend together with the object as its proof
 ExtStated(p) == LET s == Eff(p[Len(p)]) IN
                 IF IsNone(s) THEN {Sq({}, atB)}
@@ -122,33 +151,48 @@ EmitObj(p) == IF Emit THEN CSVWrite("%1$s", << ToJson([prf |-> ToJ(p), exts |-> 
               ELSE TRUE
 
 \* ---------------------------------------------------------------- actions
-Item(id, rl, a, cs, th, nat) == [id |-> id, rule |-> rl, arg |-> a, prevs |-> cs, th |-> th, sub |-> <<>>, nat |-> nat]
+Item(id, rl, a, cs, th, nat) == [id |-> id, rule |-> rl, ak |-> a.ak, arg |-> a.a, at |-> a.at, prevs |-> cs, th |-> th, sub |-> <<>>,
+                                 alias |-> <<>>, nat |-> nat]
+NoArg == AR("none", NoneP, NoneS, 0)
+\* conclusion of the item before position i of the current list (atA when there is none)
+LastC(its) == IF Len(its) = 0 THEN atA ELSE LET e == Eff(its[Len(its)]) IN IF IsNone(e) THEN atA ELSE e.c
 Ghost == rn' = RefCheck(prf', TRUE) /\ rg' = RefCheck(prf', FALSE)
 Init == prf = <<>> /\ openp = <<>> /\ w = 0 /\ rn = RefCheck(<<>>, TRUE) /\ rg = RefCheck(<<>>, FALSE)
 
 \* a rule item (anything but a block) at the end of the innermost open block, or of the top level
-AddItem == LET path == openp  i == Len(ItemsAt(prf, path))  pos == Append(path, i)
+AddItem == LET path == openp  its == ItemsAt(prf, path)  i == Len(its)  pos == Append(path, i)
                pool == CitePool(path, pos)  pool0 == { c \in pool : CW(pos, c) = 0 } IN
            /\ i < Cap(path) /\ CountLeaves(prf) < MaxLeaves
-           /\ \E rl \in Rules \ {"subproof"} : \E off \in OffsFor(Budget - w) : \E q \in IdPrefixes(path) : \E a \in Args(rl) :
-              LET w1 == w + (IF off = 0 THEN 0 ELSE 1) + a.w IN
+           /\ \E rl \in Rules \ {"subproof"} : \E off \in OffsFor(Budget - w) : \E q \in IdPrefixes(path) : \E a \in Args(rl, LastC(its)) :
+              \E n \in NCites(rl) :
+              LET w1 == w + (IF off = 0 THEN 0 ELSE 1) + a.w + (IF n = Arity(rl) THEN 0 ELSE 1) IN
               /\ w1 <= Budget
-              /\ \E cs \in Tuples(IF Budget - w1 <= 0 THEN pool0 ELSE pool, Arity(rl)) :
+              /\ ~(rl \in Unmodelled /\ a.ak = Sig(rl) /\ n = PremCount(rl))        \* outside the language of the oracle
+              /\ \E cs \in Tuples(IF Budget - w1 <= 0 THEN pool0 ELSE pool, n) :
                  LET w2 == w1 + SumW(pos, cs) IN
                  /\ w2 <= Budget
-                 /\ LET nat == NatOf(rl, a.a, cs, prf) IN
+                 /\ LET nat == NatOf(rl, a, cs, prf) IN
                     \E t \in ThOpts(rl, nat) :
                     /\ w2 + t.w <= Budget
-                    /\ prf' = AppendAt(prf, path, 1, Item(Append(q, i + off), rl, a.a, cs, t.th, nat))
+                    /\ prf' = AppendAt(prf, path, 1, Item(Append(q, i + off), rl, a, cs, t.th, nat))
                     /\ w' = w2 + t.w /\ UNCHANGED openp
                     /\ (IF path = <<>> THEN EmitObj(prf') ELSE TRUE) /\ Ghost
+
+\* the OBJECT of an earlier rule item is placed once more, at the end of the current list (same identifier, same
+\* citations, same stated sequent - it is the same ProofItem)
+AddAlias == LET path == openp  i == Len(ItemsAt(prf, path)) IN
+            /\ i < Cap(path) /\ CountLeaves(prf) < MaxLeaves /\ CountAlias(prf) < MaxAlias
+            /\ \E o \in { o \in AllPos(prf) : ItemAt(prf, o).rule # "subproof" /\ ItemAt(prf, o).alias = <<>> } :
+               /\ prf' = AppendAt(prf, path, 1, [ItemAt(prf, o) EXCEPT !.alias = o])
+               /\ UNCHANGED <<openp, w>>
+               /\ (IF path = <<>> THEN EmitObj(prf') ELSE TRUE) /\ Ghost
 
 OpenBlock == LET path == openp  i == Len(ItemsAt(prf, path)) IN
              /\ i < Cap(path) /\ Len(path) < MaxDepth /\ "subproof" \in Rules /\ CountBlocks(prf) < MaxBlocks
              /\ \E off \in OffsFor(Budget - w) : \E q \in IdPrefixes(path) :
                 LET w2 == w + (IF off = 0 THEN 0 ELSE 1) IN
                 /\ w2 <= Budget
-                /\ prf' = AppendAt(prf, path, 1, Item(Append(q, i + off), "subproof", NoneP, <<>>, NoneS, NoneS))
+                /\ prf' = AppendAt(prf, path, 1, Item(Append(q, i + off), "subproof", NoArg, <<>>, NoneS, NoneS))
                 /\ w' = w2 /\ openp' = Append(path, i) /\ Ghost
 
 \* the innermost open block is closed: its stated sequent is chosen relative to what its last item yields
@@ -162,7 +206,7 @@ CloseBlock == /\ openp # <<>>
                     /\ w' = w + t.w /\ openp' = SubSeq(openp, 1, Len(openp) - 1)
                     /\ (IF Len(openp) = 1 THEN EmitObj(prf') ELSE TRUE) /\ Ghost
 
-Next == AddItem \/ OpenBlock \/ CloseBlock
+Next == AddItem \/ AddAlias \/ OpenBlock \/ CloseBlock
 Spec == Init /\ [][Next]_vars
 
 \* ---------------------------------------------------------------- properties of the reference checker
